@@ -1,7 +1,7 @@
 (* C16 - Pseudo-Boolean expression algebra preserves integer semantics.
    Statements only; every proof is [exact <lemma>]. *)
 From Coq Require Import ZArith List Bool String.
-From FrameModel Require Import PB.Expr PB.ExprFacts.
+From FrameModel Require Import PB.Expr PB.ExprFacts PB.Dag PB.DagFacts.
 Open Scope Z_scope.
 
 (* every expression tree (literals of both polarities, terms, integers, nested
@@ -38,3 +38,39 @@ Print Assumptions C16_ineq_holds_iff.
 Theorem C16_ineq_NF : forall l r op, NF l -> NF r -> NF (mkE 0 (il (mk_ineq l r op))).
 Proof. exact ineq_NF. Qed.
 Print Assumptions C16_ineq_NF.
+
+(* ---- value semantics under REUSE (PB/Dag.v): objects bound to names and used again after other
+   objects were derived from them ---- *)
+
+(* running a history of bindings that refer to earlier bindings (a DAG) gives, for EVERY binding,
+   exactly the value obtained by building its unfolded tree from fresh leaves: sharing an operand
+   between several operations, or using it again later, is unobservable (and a history is
+   ill-typed exactly when one of its unfolded trees is) *)
+Theorem C16_dag_run_unfold : forall bs,
+  run bs = match unfold_all bs with Some ts => build_all ts | None => None end.
+Proof. exact dag_run_unfold. Qed.
+Print Assumptions C16_dag_run_unfold.
+
+(* C16_build_eval for every DAG: every bound Literal / Term / Expr evaluates, under every
+   assignment, to the direct integer value of the tree that built it; every Expr and the left side
+   of every Ineq is in normal form; every Ineq holds exactly when the direct comparison of the two
+   trees holds (operators and the Ineq constructor, six spellings) *)
+Theorem C16_dag_eval : forall bs vs, run bs = Some vs ->
+  exists trees, unfold_all bs = Some trees /\
+    Forall2 (fun v t => ubuild t = Some v /\
+                        forall a, vmean a v = ueval a t /\ vgood v /\ (vholds a v <-> uholds a t)) vs trees.
+Proof. exact dag_eval. Qed.
+Print Assumptions C16_dag_eval.
+
+(* one tree of the richer language (Literal / Term / int / str leaves, -literal, -term, copies,
+   sums, comparisons) *)
+Theorem C16_ubuild_sound : forall a t v, ubuild t = Some v ->
+  vmean a v = ueval a t /\ vgood v /\ (vholds a v <-> uholds a t).
+Proof. exact ubuild_sound. Qed.
+Print Assumptions C16_ubuild_sound.
+
+(* the expression trees of C16_build_eval are the histories without reuse *)
+Theorem C16_tree_fragment : forall t a,
+  ubuild (emb t) = Some (VExpr (build t)) /\ ueval a (emb t) = teval a t.
+Proof. exact (fun t a => conj (emb_build t) (emb_eval a t)). Qed.
+Print Assumptions C16_tree_fragment.
